@@ -47,6 +47,12 @@ def _limit():
 
 def run_cargo_kani(package, harness, extra=None, timeout=1800):
     cmd = ['cargo', 'kani', '-p', package, '--harness', harness] + (extra or [])
+    # one cargo-kani at a time on the shared workspace and target directory, across threads and across concurrently running checks
+    # (two at once race on the workspace lock file and the build directory and one of them fails with a cargo error: undecided for no reason)
+    import fcntl
+    os.makedirs(TARGET, exist_ok=True)
+    lock = open(os.path.join(TARGET, '.kani.lock'), 'w')
+    fcntl.flock(lock, fcntl.LOCK_EX)
     t0 = time.time()
     try:
         p = subprocess.run(cmd, cwd=KDIR, env=_env(), capture_output=True, text=True, timeout=timeout, preexec_fn=_limit)
@@ -55,6 +61,9 @@ def run_cargo_kani(package, harness, extra=None, timeout=1800):
     except subprocess.TimeoutExpired as e:
         out = ((e.stdout or b'').decode('utf8', 'replace') if isinstance(e.stdout, bytes) else (e.stdout or '')) + '\nTIMEOUT'
         rc = -9
+    finally:
+        fcntl.flock(lock, fcntl.LOCK_UN)
+        lock.close()
     return ' '.join(cmd), out, rc, time.time() - t0
 
 
